@@ -23,6 +23,8 @@ def arm_light(ctx, lapack=True):
     tt = importlib.import_module('scikit_tt.tensor_train')
     contracts_tt.TT = tt.TT
     contracts_tt.ttmod = tt
+    from .. import gen
+    gen.PROV = 0.15  # some generated operands (operators, guesses, right-hand sides, states) come with a history of library operations
     if lapack:
         probe.install_lapack_observer()
     return tt
